@@ -7,9 +7,10 @@ namespace Drv
 def mlAssign {C D : Nat} (cfg : MlCfg C D Float) (w : Fin C → Float) (st : Stats C D Float) : Assign C D Float :=
   let p0 : Params C D Float := { weights := w, means := fun _ _ => 0, variances := fun _ _ => 0 }
   { weights := if cfg.updWeights then some (mlMStep cfg p0 st (Float.ofNat st.t)).weights else none
-    means := if cfg.updMeans then some (mlMeans cfg p0 st) else none
+    means := if cfg.updMeans then some fun cur => mlMeans cfg { p0 with means := cur } st else none
     variances := if cfg.updVars then
-        some fun m => mlRawVar { cfg with updMeans := false } { p0 with means := m } st
+        some fun m cur c d => if st.n c < cfg.countThr then cur c d
+          else mlRawVar { cfg with updMeans := false } { p0 with means := m } st c d
       else none }
 
 /-- the assignments `map_gmm_m_step` performs (weights and means; variances only via `sq`) -/
@@ -17,9 +18,9 @@ def mapAssign {C D : Nat} (cfg : MapCfg C D Float) (ubm : Params C D Float) (w :
     Assign C D Float :=
   let p0 : Params C D Float := { weights := w, means := fun _ _ => 0, variances := fun _ _ => 0 }
   { weights := if cfg.updWeights then some (mapWeights cfg ubm p0 st (Float.ofNat st.t)) else none
-    means := if cfg.updMeans then some (mapMeans cfg ubm p0 st) else none
+    means := if cfg.updMeans then some fun _ => mapMeans cfg ubm p0 st else none
     variances := if cfg.updVars then
-        some fun m => mapRawVarG (fun x => x * x) { cfg with updMeans := false } ubm { p0 with means := m } st
+        some fun m _ => mapRawVarG (fun x => x * x) { cfg with updMeans := false } ubm { p0 with means := m } st
       else none }
 
 def rdOp (j : Json) (C D : Nat) (cur : GStateV C D Float) : GOp C D Float :=
